@@ -86,6 +86,35 @@ Proof.
   rewrite H. reflexivity.
 Qed.
 
+(** The OS arm of the dispatcher: exactly the nanoseconds between the two
+    instants times 1000 (whole seconds included), zero when reversed. *)
+Lemma os_duration_exact later earlier :
+  later < 2 ^ 64 * 1000000000 ->
+  os_duration_since later earlier = Ok ((later - earlier) * 1000).
+Proof.
+  intros Hl. unfold os_duration_since.
+  assert (He : later - earlier < 2 ^ 64 * 1000000000) by lia.
+  rewrite duration_exact.
+  - f_equal. f_equal.
+    rewrite (N.mul_comm _ 1000000000). symmetry. apply N.div_mod. discriminate.
+  - apply N.div_lt_upper_bound; [discriminate|]. lia.
+  - apply N.mod_lt. discriminate.
+Qed.
+
+Lemma os_duration_reversed later earlier :
+  later <= earlier -> os_duration_since later earlier = Ok 0.
+Proof.
+  intros H. unfold os_duration_since.
+  replace (later - earlier) with 0 by lia. reflexivity.
+Qed.
+
+Lemma osd_model_sb earlier later :
+  later < 2 ^ 64 * 1000000000 ->
+  osd_sb earlier later (os_duration_since later earlier) = true.
+Proof.
+  intros Hl. rewrite os_duration_exact by assumption. cbn [osd_sb]. apply N.eqb_refl.
+Qed.
+
 (** * Timer precision under a uniformly stepping clock *)
 
 Lemma prec_tick_min s : ps_min (prec_tick s) = ps_min s.
